@@ -69,6 +69,14 @@ CHECKS = {
             "Template scripts = slot x expression form x parameter-name set (incl. overlapping and p-like names), arrays with a bare parameter at every subset of positions, whole-array parameters; for every assignment of values from each class to the parameters, loads(S)(**v) is compared operation by operation and variable by variable with loads(S[{p} := (repr v)]); reported parameters, is_template, absence of parameters in the instance and ValueError on a missing value are checked for every case.",
             "dtype of instantiated arrays and int-vs-float kind not compared; absolute slack 1e-12*(1+max|v|)^3 keeps cancelling cases (excluded by the property) silent. One recorded finding (functions of parameters).",
             "DESIGN.md section 5 C04"),
+    "C16": ("exploration", "exhaustive enumeration of ALL programs of n operations over a finite operation alphabet, vs reference reachability + all topological orders",
+            "All sequences of n operations (n<=3 over the full 72-variant alphabet incl. register dependencies in positional/keyword position and with/without args key; register-free to n=5, thorough n=4 full / n=6) are converted with the real to_DiGraph; node set and attributes, edge direction, reachability against the reference wire relation, and (n<=5) every topological order are checked; plus two-statement scripts loaded from text so the transforms are the parser's own.",
+            "Reference relation: share a mode or measured register, closed under increasing chains.",
+            "DESIGN.md section 5 C16"),
+    "C17": ("exploration", "bounded-exhaustive enumeration of templates x value classes x ALL linear extensions x all single structural edits, with a brute-force reference for edit verdicts",
+            "Templates of 1-3 (thorough 4) operations over 3 modes with affine single-parameter arguments and repeated parameters; for each, the instance and every reordering that preserves per-mode order must match, return exactly the template parameters and reproduce the arguments on re-instantiation; every single structural edit must raise TemplateError unless a brute-force bijection search shows the edited program is still an instance.",
+            "Arguments compared to 1e-9 relative; value class rotated per template (all classes on parameter-repeating templates).",
+            "DESIGN.md section 5 C17"),
     # id: (category, technique, text, note, design_ref)
     "C02": ("exploration", "bounded-exhaustive enumeration of script prefixes (BFS over item sequences) vs reference denotation",
             "Every item sequence over the statement menu up to the stated depth is rendered, loaded by the real parser/evaluator and compared with an independently written reference denotation; complete for the stated alphabet and depth, nothing beyond.",
